@@ -385,7 +385,35 @@ def doy_tables(repo, rep, tier):
         rep.violation("R-DOY", "Epoch.Epoch.get_doy", "month-offsets", "day-of-year formula (years before 1583): " + "; ".join(bad[:3]), obligation=True)
     else:
         rep.ok("R-DOY", "Epoch.Epoch.get_doy", "formula branch: days before each month == calendar table for 12 months x 2 leap flags", obligation=True)
-    # (b)
+    n += doy2date_table(repo, rep, julian_class, prims)
+    doy_vs_jde(repo, rep, tier, n, prims, gn)
+
+
+def _julian_class(leap):
+    Y = T.sym("NUM_Y")
+    LEAP = T.call("Epoch.Epoch.is_leap", Y)
+
+    def decide(c):
+        if c == LEAP:
+            return leap
+        if c[0] == "cmp" and c[2] == Y and c[3][0] == "num" and c[3][1] in (1582, 1583):
+            return {"GtE": False, "Gt": False, "Lt": True, "LtE": True}.get(c[1])
+        return None
+    return decide
+
+
+def doy2date_table(repo, rep, julian_class=None, prims=None):
+    """(b) of R-DOY, also used by C19 (moslem2gregorian goes through doy2date for every date before 1583): the formula branch
+    of doy2date names the calendar's (month, day) for every day number of a common and of a leap year, and carries the
+    fraction of the day unchanged (fractions 0, 1/2, 9/10, 999/1000 of every day)."""
+    import calendar as _cal
+    from ..rules import eval_exact, NotEvaluable, assume
+    rep.rule("R-DOY", "day-of-year recipes decided on their finite domains (month x leap flag; day number x leap flag) and against the "
+                      "library's own date -> JDE conversion on every class of year")
+    julian_class = julian_class or _julian_class
+    prims = prims or stdlib_prims(repo)
+    Y, N = T.sym("NUM_Y"), T.sym("NUM_N")
+    n = 0
     fn2 = repo.func("Epoch", "Epoch.doy2date")
     dn = [a.arg for a in fn2.args.args]
     t2 = ret_term(repo, "Epoch", "Epoch.doy2date", arg_terms={dn[0]: Y, dn[1]: N})
@@ -394,19 +422,27 @@ def doy_tables(repo, rep, tier):
         tj = assume(t2, julian_class(leap))
         dates = [(m, d) for m in range(1, 13) for d in range(1, _cal.mdays[m] + (1 if (leap and m == 2) else 0) + 1)]
         for k, (m, d) in enumerate(dates):
-            try:
-                v = eval_exact(tj, {N: Fraction(k + 1), Y: Fraction(1000)}, prims)
-            except (NotEvaluable, TypeError) as e:
-                rep.inconcl("R-DOY", "Epoch.Epoch.doy2date", "formula branch not evaluable: %s" % e)
-                return
-            n += 1
-            if not (isinstance(v, tuple) and len(v) == 3 and v[1] == m and v[2] == d):
-                bad.append("day %d of a %s year -> %s, the calendar has (%d, %d)" % (k + 1, "leap" if leap else "common", v[1:] if isinstance(v, tuple) else v, m, d))
+            for fr in (Fraction(0), Fraction(1, 2), Fraction(9, 10), Fraction(999, 1000)):
+                try:
+                    v = eval_exact(tj, {N: Fraction(k + 1) + fr, Y: Fraction(1000)}, prims)
+                except (NotEvaluable, TypeError) as e:
+                    rep.inconcl("R-DOY", "Epoch.Epoch.doy2date", "formula branch not evaluable: %s" % e)
+                    return n
+                n += 1
+                if not (isinstance(v, tuple) and len(v) == 3 and v[1] == m and abs(v[2] - (d + fr)) < Fraction(1, 10 ** 9)):
+                    bad.append("day %s of a %s year -> %s, the calendar has (%d, %s)" % (float(k + 1 + fr), "leap" if leap else "common",
+                                                                                      tuple(float(x) for x in v[1:]) if isinstance(v, tuple) else v, m, float(d + fr)))
     if bad:
-        rep.violation("R-DOY", "Epoch.Epoch.doy2date", "inverse", "day-of-year -> date (years before 1583): " + "; ".join(bad[:3]), obligation=True)
+        rep.violation("R-DOY", "Epoch.Epoch.doy2date", "inverse", "day-of-year -> date (years before 1583): " + "; ".join(bad[:3]) + " (%d cases)" % len(bad), obligation=True)
     else:
-        rep.ok("R-DOY", "Epoch.Epoch.doy2date", "formula branch inverts the day number for all 365 + 366 days", obligation=True)
-    # (c)
+        rep.ok("R-DOY", "Epoch.Epoch.doy2date", "formula branch inverts the day number for all 365 + 366 days, at 4 fractions of each day", obligation=True)
+    return n
+
+
+def doy_vs_jde(repo, rep, tier, n, prims, gn):
+    """(c) of R-DOY"""
+    from ..rules import eval_exact, NotEvaluable
+    Y = T.sym("NUM_Y")
     fj = repo.func("Epoch", "Epoch._compute_jde")
     jn = [a.arg for a in fj.args.args]
     M_, Dn = T.sym("NUM_M"), T.sym("NUM_D")
